@@ -26,6 +26,7 @@ type Env struct {
 	old      *State
 	binds    map[string]TVal
 	params   map[string]TVal
+	oldBinds map[string]TVal // values of in-place parameters in the pre-state (used under old())
 	pkg      *types.Package
 	useCells bool
 	fr       *Frame
@@ -69,6 +70,10 @@ func (e *Env) resolveType(text string) (types.Type, string) {
 		return types.NewInterfaceType(nil, nil), SAny
 	case "error":
 		return types.Universe.Lookup("error").Type(), SAny
+	case "byte", "int64", "int32", "int16", "int8", "uint", "uint64", "uint32", "uint16", "uint8", "float64", "rune":
+		if o := types.Universe.Lookup(text); o != nil {
+			return o.Type(), vc.sorts.SortOf(o.Type())
+		}
 	case "ref":
 		return nil, SRef
 	case "real":
@@ -474,7 +479,11 @@ func (e *Env) binary(n EBinary) TVal {
 		var eq string
 		if strings.HasPrefix(a.T.Sort, "Seq_") {
 			e.ground = false
-			eq = e.seqEq(a.T, b.T, n.Op == "==")
+			proving := e.goal != e.neg // is this atom (as written) something to establish?
+			if n.Op == "!=" {
+				proving = !proving
+			}
+			eq = e.seqEq(a.T, b.T, proving)
 		} else {
 			eq = app("=", a.T.S, b.T.S)
 		}
@@ -592,6 +601,9 @@ func (e *Env) call(n ECall) TVal {
 		sub := e.sub()
 		sub.st = e.old
 		sub.useCells = false
+		for k, v := range e.oldBinds {
+			sub.binds[k] = v
+		}
 		r := sub.tr(n.Args[0])
 		e.errs = append(e.errs, sub.errs[len(e.errs):]...)
 		if !sub.ground {
